@@ -432,6 +432,11 @@ pub fn cleanup_cold_dir() {}
 /// may be another property's defect) but it is the trigger for asking a cold process.
 fn agrees_with_spec(bc: &BuildCase, s: &Snapshot) -> bool {
     let mode = bc.effective_mode();
+    if bc.opts.mode.is_some() && !in_alphabet(mode, &bc.input) {
+        // a forced mode the input does not fit: the documented outcome is a panic (or an error from the capacity check
+        // made before encoding); the specification model has nothing to say about symbols here
+        return s.kind != 0;
+    }
     let level = bc.effective_level();
     let min = min_version(level, mode, bc.input.len());
     let want_version = match (min, bc.opts.version) {
@@ -527,6 +532,12 @@ pub fn check_history(h: &History, obs: &mut Obs) -> Result<(), Fail> {
                     overwritten += 1;
                 }
                 model.mode = Some(*m);
+                if !in_alphabet(*m, &h.input) {
+                    obs.label("setter:mode_the_input_does_not_fit");
+                    if *m == Mode::Alphanumeric && h.input.iter().all(|b| in_alphabet(Mode::Alphanumeric, &[b.to_ascii_uppercase()])) {
+                        obs.label("setter:alphanumeric_on_input_that_fits_up_to_letter_case");
+                    }
+                }
                 shared.mode(f_mode(*m));
             }
             Op::SetEcl(l) => {
@@ -1185,11 +1196,16 @@ pub fn history_strategy() -> BoxedStrategy<History> {
     (0usize..3, prop_oneof![3 => 0usize..60, 1 => 0usize..600])
         .prop_flat_map(|(mi, len)| {
             let class = Mode::from_index(mi);
-            payload(class, len, true).prop_flat_map(move |(input, _)| {
+            // one input in three is a realistic text (links, contact data, serials in either letter case: often inside a
+            // compact alphabet except for letter case, a separator or a prefix)
+            prop_oneof![2 => payload(class, len, true), 1 => crate::gens::realistic_payload().prop_map(|v| (v, "realistic"))].prop_flat_map(move |(input, _)| {
                 // modes whose alphabet contains the input
                 let modes: Vec<Mode> = MODES.iter().copied().filter(|m| in_alphabet(*m, &input)).collect();
                 let op = prop_oneof![
                     2 => proptest::sample::select(modes).prop_map(Op::SetMode),
+                    // any mode, also one the input does not fit: such a build panics (a result like any other here), and
+                    // the setter may be overwritten before the next build
+                    2 => (0usize..3).prop_map(|i| Op::SetMode(Mode::from_index(i))),
                     2 => (0usize..4).prop_map(|l| Op::SetEcl(Level::from_index(l))),
                     2 => prop_oneof![3 => 1usize..=10, 1 => 1usize..=40].prop_map(Op::SetVersion),
                     2 => (0u8..8).prop_map(Op::SetMask),
@@ -1204,7 +1220,25 @@ pub fn history_strategy() -> BoxedStrategy<History> {
                     3 => Just(Op::PRenderSvg),
                     1 => Just(Op::PRenderPng),
                 ];
-                vec(op, 0..32).prop_map(move |ops| History { input: input.clone(), ops })
+                (vec(op, 0..32), vec(any::<u8>(), 32)).prop_map(move |(ops, sel)| {
+                    // "last value wins": in front of about every third setter call another call of the SAME setter with
+                    // another value of its type is inserted (for the mode: any mode, also one the input does not fit)
+                    let mut out = Vec::with_capacity(ops.len() * 2);
+                    for (i, op) in ops.into_iter().enumerate() {
+                        let s = sel[i % sel.len()];
+                        if s % 3 == 0 {
+                            match &op {
+                                Op::SetMode(m) => out.push(Op::SetMode(Mode::from_index((*m as usize + 1 + (s as usize / 3) % 2) % 3))),
+                                Op::SetEcl(l) => out.push(Op::SetEcl(Level::from_index((*l as usize + 1 + (s as usize / 3) % 3) % 4))),
+                                Op::SetVersion(v) => out.push(Op::SetVersion(1 + (*v + (s as usize / 3) % 39) % 40)),
+                                Op::SetMask(k) => out.push(Op::SetMask((*k + 1 + (s / 3) % 7) % 8)),
+                                _ => {}
+                            }
+                        }
+                        out.push(op);
+                    }
+                    History { input: input.clone(), ops: out }
+                })
             })
         })
         .boxed()
